@@ -101,6 +101,15 @@ CheckRem(a) ==
   UNION { IF IsZeroTF(b) THEN {} ELSE
           LET A == <<TFA(a), TFA(b)>> IN Ob("rem", A, ARemTT(a, b))
           : b \in BSet }
+CheckEuclid(a) ==
+  UNION { IF IsZeroTF(b) THEN {} ELSE
+          UNION { LET A == <<TFA(x), TFA(b)>> IN
+                  Ob("div_euclid", A, ADivEuclid(x, b)) \cup Ob("rem_euclid", A, ARemEuclid(x, b))
+                  \cup (LET m == AMin(x, b)   M == AMax(x, b) IN
+                        IF Real(MinMaxFails("min", TFA(x), TFA(b), Res(m))) = {} /\ Real(MinMaxFails("max", TFA(x), TFA(b), Res(M))) = {}
+                        THEN {} ELSE {<<"minmax", x, b>>})
+                  : x \in {a, ANeg(a)} }
+          : b \in BSet }
 CheckNew(a) ==
   \* a.hi against every word (including subnormals, both zeros)
   UNION { LET A == <<FA(a.hi), FA(f)>> IN
@@ -146,7 +155,7 @@ CheckExpFlowOld(x) == UNION { ExpFlowBad(v, ExpSplitYOld(v)) : v \in {x, ANeg(x)
 CheckQuadrant(x) == UNION { QuadrantBad(v) : v \in {x, ANeg(x)} }
 
 Items ==
-  CASE MODE \in {"addsub", "mul", "div", "rem", "new", "cmp"} -> SliceOf(SeqOfSet(ASet))
+  CASE MODE \in {"addsub", "mul", "div", "rem", "new", "cmp", "euclid"} -> SliceOf(SeqOfSet(ASet))
     [] MODE \in {"expflow", "expflow_old", "quadrant"} -> SliceOf(SeqOfSet(ValidWithHi({ w \in WordsIn(E0 - GAP, E0 + GAP) : ~w.neg })))
     [] MODE = "frac" -> SliceOf(SeqOfSet(ValidWithHi({ w \in WordsIn(E0 - GAP, E0 + GAP) : ~w.neg })))
     [] MODE = "nov" -> SliceOf(SeqOfSet(AllWords))
@@ -158,6 +167,7 @@ CheckItem(it) ==
     [] MODE = "mul" -> CheckMul(it)
     [] MODE = "div" -> CheckDiv(it)
     [] MODE = "rem" -> CheckRem(it)
+    [] MODE = "euclid" -> CheckEuclid(it)
     [] MODE = "new" -> CheckNew(it)
     [] MODE = "nov" -> CheckNov(it)
     [] MODE = "frac" -> CheckFrac(it)
@@ -175,7 +185,7 @@ Next == /\ i < Len(ItemSeq)
 Spec == Init /\ [][Next]_vars
 NoBad == bad = {}
 \* the run is not vacuous: the slice has items and the sets are inhabited
-Sizes == <<Len(ItemSeq), IF MODE \in {"addsub", "mul", "div", "rem", "cmp"} THEN Cardinality(BSet) ELSE 0,
+Sizes == <<Len(ItemSeq), IF MODE \in {"addsub", "mul", "div", "rem", "cmp", "euclid"} THEN Cardinality(BSet) ELSE 0,
            IF MODE \in {"addsub", "mul", "div", "new"} THEN Cardinality(BWords) ELSE 0>>
 Report == PrintT(<<"MC_SIZES", MODE, Sizes>>) /\ Len(ItemSeq) > 0
 =============================================================================
